@@ -334,11 +334,16 @@ func plans() map[string]*propertyPlan {
 	c12.thorough = append(c12.thorough, spec{family: "revisions", cases: 30000, cpuS: 7200, asKB: 8 << 20, wallS: 9000})
 	c12.evaluations = "sets,header_sets"
 	c12.minObserved["instantiating_module_queries"] = 1000
+	c09 := treePlan("the resolved type of every leaf (base kind, units, default, accumulated patterns) is compared with the reference binder; plus derivation chains of 3 to 13000 typedefs (30000 in the thorough tier) on string, int32, uint8 and decimal64, declared base first, most derived first or shuffled, in one module or alternating between two that import each other: the leaf at the end carries the base kind, the nearest units and default and every pattern of the chain", 30000, 400000)
+	c09.quick = append(c09.quick, spec{family: "longchains", cases: 96, params: map[string]string{"case_cpu_s": "120"}, cpuS: 900, asKB: 8 << 20, wallS: 1200})
+	c09.thorough = append(c09.thorough, spec{family: "longchains", cases: 960, params: map[string]string{"case_cpu_s": "300"}, cpuS: 7200, asKB: 8 << 20, wallS: 9000})
+	c09.evaluations = "sets,chains"
+	c09.minObserved["leaves_checked"] = 100
 	return map[string]*propertyPlan{
 		"C04": late(treePlan("after a clean Process every tree is walked (Dir and rpc input/output): name/key, parent pointers, no Entry object reached twice, kind vs child map/type/list attributes, choice children are cases, no unapplied augment, no node with recorded errors; and the set of errors expected by the reference must not be silently absent", 30000, 400000), 3900, 52000),
 		"C06": c06,
 		"C07": late(treePlan("augmented trees are compared with the reference graft (children, namespace and instantiating module of grafted nodes) and augments the reference cannot apply must be reported", 30000, 400000), 2100, 28000),
-		"C09": treePlan("the resolved type of every leaf (base kind, units, default, accumulated patterns) is compared with the reference binder", 30000, 400000),
+		"C09": c09,
 		"C12": c12,
 		"C17": c17,
 		"C02": {
